@@ -168,12 +168,14 @@ Section Body.
   Variable rho : list (vid * vid).
   Variable rec rec' : func -> list value -> st -> outcome (option value * st).
   Variable K K' : bid -> env -> st -> outcome (option value * st).
+  Variable tr : bid -> bid -> bool.
   Hypothesis Hc : cfg_ok c.
   Hypothesis Hnd : nodup_pos (map snd rho) = true.
   Hypothesis Hctx : forall ph e r, eval_ref m' ge ph e args r = eval_ref m ge ph e args r.
   Hypothesis Hcall : forall want cal vs s r s1,
     do_call m rec want cal vs s = ODone (r, s1) -> do_call m' rec' want cal vs s = ODone (r, s1).
-  Hypothesis HK : forall t e e' s r s1, Rel rho e e' -> K t e s = ODone (r, s1) -> K' t e' s = ODone (r, s1).
+  Hypothesis HK : forall t t' e e' s r s1, tr t t' = true -> Rel rho e e' ->
+    K t e s = ODone (r, s1) -> K' t' e' s = ODone (r, s1).
 
   Lemma step_simple_ctx g e s i : step_simple c m' ge g args e s i = step_simple c m ge g args e s i.
   Proof. destruct i; unfold step_simple, eval_int; rewrite ?Hctx; reflexivity. Qed.
@@ -194,7 +196,7 @@ Section Body.
   Qed.
 
   Lemma check_body_sound : forall n l l' e e' s r s1,
-    check_body c f f' rho n l l' = true -> Rel rho e e' ->
+    check_body c f f' rho tr n l l' = true -> Rel rho e e' ->
     go c m ge rec K f args l e s = ODone (r, s1) ->
     go c m' ge rec' K' f' args l' e' s = ODone (r, s1).
   Proof.
@@ -242,20 +244,20 @@ Section Body.
       eapply IH; [exact Hrest|exact HR1|exact Hgo].
     - (* jump *)
       destruct i'; try discriminate Hck. cbn [term_ok] in Hck.
-      destruct (Pos.eqb_spec b b0); [|discriminate Hck]. subst b0.
+      destruct (tr b b0) eqn:Etr; [|discriminate Hck].
       destruct (segment_sound c m ge f f' args rho seg seg' _ e e' s e1 sa Hc HR Hpl Hck Erun) as (e1' & Hrun' & HR1 & Hps).
       rewrite Hrun'. cbn [obind go] in *. eapply HK; eassumption.
     - (* cjump *)
       destruct i'; try discriminate Hck. cbn [term_ok] in Hck.
-      destruct (dec2b cond_eq_dec c0 c1 && (yes =? yes0)%positive && (no =? no0)%positive) eqn:Ec; [|discriminate Hck].
+      destruct (dec2b cond_eq_dec c0 c1 && tr yes yes0 && tr no no0) eqn:Ec; [|discriminate Hck].
       apply Bool.andb_true_iff in Ec. destruct Ec as [Ec Eno]. apply Bool.andb_true_iff in Ec. destruct Ec as [Ec Eyes].
-      apply dec2b_spec in Ec. apply Pos.eqb_eq in Eno. apply Pos.eqb_eq in Eyes. subst c1 yes0 no0.
+      apply dec2b_spec in Ec. subst c1.
       destruct (segment_sound c m ge f f' args rho seg seg' _ e e' s e1 sa Hc HR Hpl Hck Erun) as (e1' & Hrun' & HR1 & Hps).
       rewrite Hrun'. cbn [obind go] in *. rewrite !eval_int_as in *. rewrite !Hctx.
       rewrite (Hps a a0 (or_introl eq_refl)), (Hps b b0 (or_intror (or_introl eq_refl))).
       destruct (as_int (eval_ref m ge false e1 args a)); cbn [obind] in *; try discriminate Hgo.
       destruct (as_int (eval_ref m ge false e1 args b)); cbn [obind] in *; try discriminate Hgo.
-      eapply HK; eassumption.
+      destruct (eval_cond c0 a1 a2); eapply HK; eassumption.
     - (* return *)
       destruct i'; try discriminate Hck. cbn [term_ok] in Hck.
       destruct (segment_sound c m ge f f' args rho seg seg' _ e e' s e1 sa Hc HR Hpl Hck Erun) as (e1' & Hrun' & HR1 & Hps).
@@ -476,10 +478,10 @@ Section Modul2.
     destruct (phis_sound m m' (layout c m) args (mk_rho f f') (ctx_eq c m m' Hext Hfuncs args)
                 pred e e' (b_ins k) HR (b_ins k') ph Hphis Eph) as (ph' & -> & Hp1 & Hp2).
     cbn [obind].
-    eapply (check_body_sound c m m' (layout c m) f f' args (mk_rho f f')); try eassumption.
+    eapply (check_body_sound c m m' (layout c m) f f' args (mk_rho f f') _ _ _ _ Pos.eqb); try eassumption.
     - apply ctx_eq; assumption.
     - apply call_sound; assumption.
-    - intros t e1 e1' s2 r2 s3 HR2 Hk. eapply IH; eassumption.
+    - intros t t' e1 e1' s2 r2 s3 Ht HR2 Hk. apply Pos.eqb_eq in Ht. subst t'. eapply IH; eassumption.
     - intros v' v Hr. rewrite !env_get_app.
       destruct (mem_pos v' (phi_vids (b_ins k'))) eqn:Em.
       + rewrite (Hp1 _ _ Hr (proj1 (mem_pos_in _ _) Em)). destruct (env_get ph v); [reflexivity|apply HR; exact Hr].
